@@ -295,6 +295,8 @@ type wcase struct {
 	rawTLSDone  int64
 
 	hung map[string]bool // later calls that did not return
+
+	release func() // i-pending: lets the parked Attaching hook return
 }
 
 type setupError struct{ msg string }
@@ -348,6 +350,8 @@ func (w *wcase) run() {
 		w.sitPeerFail()
 	case "h-dialstall":
 		w.sitStallDial()
+	case "i-pending":
+		w.sitPendingAccept()
 	default:
 		w.setupFail("unknown situation %s", w.spec.Sit)
 	}
@@ -767,6 +771,40 @@ func (w *wcase) sitStallDial() {
 	}
 }
 
+// sitPendingAccept: the subject listens; the Attaching hook of the first pipe parks the accept
+// loop; a second peer dials and completes the transport level handshake, so its connection sits
+// in the transport listener waiting to be accepted when the subject is closed.  The hook is
+// released a moment after Close was called.
+func (w *wcase) sitPendingAccept() {
+	w.subj = w.newSock(w.k, "subject")
+	park := make(chan struct{})
+	var parked int32
+	subj := w.subj
+	subj.s.SetPipeEventHook(func(ev mangos.PipeEvent, p mangos.Pipe) {
+		if ev == mangos.PipeEventAttaching && atomic.CompareAndSwapInt32(&parked, 0, 1) {
+			<-park
+		}
+		subj.hook(ev, p)
+	})
+	var once sync.Once
+	w.release = func() { once.Do(func() { close(park) }) }
+	p1 := w.newSock(kindByName(w.k.peer), "peer1")
+	p2 := w.newSock(kindByName(w.k.peer), "peer2")
+	w.socks = []*sock{w.subj, p1, p2}
+	addr := w.listen(w.subj, w.newAddr("l"))
+	w.dial(p1, addr, true)
+	if !poll(setupWatchdog, 2*time.Millisecond, func() bool { return atomic.LoadInt32(&parked) == 1 }) {
+		w.release()
+		w.setupFail("the accept loop never reached the Attaching hook")
+	}
+	w.dial(p2, addr, true)
+	// the dialling side attaches as soon as the transport level handshake is through
+	if poll(5*time.Second, 2*time.Millisecond, func() bool { return p2.live() >= 1 || w.t.family == "inproc" }) {
+		time.Sleep(30 * time.Millisecond)
+		w.res.InProgress = true
+	}
+}
+
 // sitPeerFail: the peer is closed first.
 func (w *wcase) sitPeerFail() {
 	w.connectPair(w.k.peer)
@@ -829,6 +867,12 @@ func (w *wcase) closeAndJudge() {
 	}
 
 	// --- Close every socket of the case
+	if w.release != nil {
+		go func() {
+			time.Sleep(100 * time.Millisecond)
+			w.release()
+		}()
+	}
 	for _, x := range w.socks {
 		w.closeSock(x)
 	}
